@@ -458,13 +458,21 @@ func faultWorker(tier string, shard, nshard int) *WorkerOut {
 				}
 			}
 		}
-		victims := []Letter{alpha[2], alpha[4]}
+		victims := []Letter{alpha[2], alpha[4], alpha[5]}
+		// followers: a richer batch, and batches whose entities have fewer attributes than the
+		// victim's (state left behind by a failed call shows up as telemetry that was never sent)
+		followers := []Letter{alpha[3], alpha[0], alpha[1]}
 		if thorough {
 			victims = alpha
+			followers = nil
+			for vi := range alpha {
+				followers = append(followers, alpha[(vi+3)%len(alpha)])
+			}
+			followers[4], followers[5] = alpha[0], alpha[1]
 		}
 		for _, pre := range prefixes {
 			for vi, v := range victims {
-				h := append(append([]Letter{}, pre...), v, alpha[(vi+3)%len(alpha)])
+				h := append(append([]Letter{}, pre...), v, followers[vi])
 				idx++
 				if nshard > 0 && idx%nshard != shard {
 					continue
